@@ -407,7 +407,75 @@ func c01Families(thorough bool) []*engine.IFamily {
 			}
 			return r
 		}}
-	return []*engine.IFamily{matrix, nm}
+	rejected := &engine.IFamily{Name: "writes-rejected-by-the-data-layer", Chunks: 1,
+		Rule: "authorised writes (binding present, function writable) that the update engine accepts or rejects: partial, selector and delete writes addressing a changeable or a write-protected element of each list type with a writecheck field, ackRequest absent/true; non-trivial: all",
+		Run: func(chunk int) engine.IResult {
+			var r engine.IResult
+			specs := wcheckSpecs()
+			rt.Execute(rt.Config{Horizon: 2000000}, func() {
+				c := newC04World(specs)
+				rt.WaitIdle()
+				for _, sp := range specs {
+					f := c.local[sp.name]
+					for _, ack := range []bool{false, true} {
+						for _, target := range []int{1, 2} { // element 1 is changeable, element 2 is not
+							for _, fs := range []filterSpec{{partial: true}, {partial: true, partialSel: target}, {del: true, delSel: target}, {del: true, delSel: target, delElements: true}} {
+								fp, fd, ok := sp.filters(fs)
+								if !ok {
+									continue
+								}
+								f.SetData(sp.fn, sp.list([]itemSpec{{id: 1, pay: "1-", flag: 't'}, {id: 2, pay: "1-", flag: 'f'}}))
+								items := []itemSpec{{id: target, pay: "2-"}}
+								if fs.partialSel > 0 {
+									items = []itemSpec{{pay: "2-"}}
+								}
+								if fs.del {
+									items = nil
+								}
+								cmd := model.CmdType{}
+								cmd.SetDataForFunction(sp.fn, sp.list(items))
+								fn := sp.fn
+								cmd.Function = &fn
+								if fd != nil {
+									cmd.Filter = append(cmd.Filter, *fd)
+								}
+								if fp != nil {
+									cmd.Filter = append(cmd.Filter, *fp)
+								}
+								cs := c01Case{class: model.CmdClassifierTypeWrite, ack: ack, dest: "server", fn: sp.fn, peer: "A"}
+								switch {
+								case target == 2:
+									cs.expect = "err"
+								case ack:
+									cs.expect = "ok"
+								default:
+									cs.expect = "none"
+								}
+								r.Evals++
+								r.Nontrivial++
+								cw := &c01World{w: c.w}
+								for _, v := range cw.deliver(cs, c.cli[sp.name], f.Address(), cmd, nil) {
+									r.NFails++
+									key := fmt.Sprintf("%s | write=%s target=%s type=%s", strings.SplitN(v, " | ", 2)[0], fs.String(), map[int]string{1: "changeable", 2: "protected"}[target], sp.name)
+									dup := false
+									for _, x := range r.Fails {
+										dup = dup || x.Key == key
+									}
+									if !dup {
+										r.Fails = append(r.Fails, engine.IFail{Key: key, Msg: fmt.Sprintf("%s\nack=%v", v, ack), Input: sp.name + " " + fs.String()})
+									}
+								}
+							}
+						}
+					}
+				}
+			})
+			if len(r.Samples) == 0 {
+				r.Samples = []string{"partial write of a protected limit with ackRequest -> expect exactly one error result"}
+			}
+			return r
+		}}
+	return []*engine.IFamily{matrix, nm, rejected}
 }
 
 func init() {
